@@ -5,6 +5,7 @@ import random
 import re
 
 import vlib
+import c20consts
 import c20gaps
 import c20gen
 import c20lib
@@ -394,8 +395,13 @@ class C20(Property):
         self._monitor = {}      # source -> obs of the valid programs of the main run (comment monitor)
 
     # ---- build ------------------------------------------------------------------
+    def regen(self, ctx):
+        return c20consts.regen()
+
     def prepare(self, ctx):
-        ok, res = c20lib.build()
+        # thorough tier: the executor is built with the race detector (its concurrent pass formats
+        # every program by 8 goroutines at once); a reported race ends the executor with an error
+        ok, res = c20lib.build(race=(getattr(ctx, "tier", "") == "thorough"))
         if not ok:
             return False, res
         self.bin = res
@@ -483,14 +489,14 @@ class C20(Property):
             # a shrink candidate of a valid failing program that is no longer valid: not a
             # smaller instance of the same failure (it would drift to the parser-crash findings)
             obs["skipped"] = "shrink candidate no longer valid"
-            return "mkCase None None true [] [] [] (Some []) OOk OOk [] [] (Some []) true true false []"
+            return "mkCase None None true [] [] [] (Some []) OOk OOk [] [] (Some []) true true true false []"
         if case.get("expect_valid"):
             # deleting lines can glue two route lines into one path with adjacent identifiers
             # ("/a b", which goctl reads as "/ab"): outside the model's [wf], not a smaller instance
             cls, _ = c20gaps.classify(obs["toks"])
             if any(a == "P:id" and b2 == "P:id" for a, b2 in zip(cls, cls[1:])):
                 obs["skipped"] = "shrink candidate with adjacent identifiers in a path"
-                return "mkCase None None true [] [] [] (Some []) OOk OOk [] [] (Some []) true true false []"
+                return "mkCase None None true [] [] [] (Some []) OOk OOk [] [] (Some []) true true true false []"
         try:
             ast = r_api(obs["ast"])
         except Unrenderable as e:
@@ -515,13 +521,13 @@ class C20(Property):
         # the character-level tie costs Coq front-end time (long string literals): every source up
         # to SCAN_MAX characters, every formatted text up to SCAN_MAX/2
         cm_ok = all(clean(c[2]) == c[2] for c in obs["cmts"] + obs["fcmts"]) and "unrenderable_t" not in obs
-        return "mkCase %s %s %s %s %s %s %s %s %s %s %s %s %s %s %s %s" % (
+        return "mkCase %s %s %s %s %s %s %s %s %s %s %s %s %s %s %s %s %s" % (
             src_term(case["src"]) if cm_ok and len(case["src"]) <= SCAN_MAX else "None",
             src_term(obs["fmt1"]) if cm_ok and len(obs["fmt1"]) <= SCAN_MAX // 2 else "None",
             b(not obs.get("serr") and "unrenderable_t" not in obs), toks, r_cmts(obs["cmts"]),
             lst([b(c[0] >= 0 and c[3]) for c in obs["cmts"]]), ast, outc(obs["pout"]),
             outc(obs["fout"]), ftoks, r_cmts(obs["fcmts"]), fast, b(obs["idem"]), b(obs.get("file") == "same"),
-            b(os.environ.get("C20_STRICT") == "1"), lst([outc(m) for m in obs["muts"]]))
+            b(obs.get("conc", "same") == "same"), b(os.environ.get("C20_STRICT") == "1"), lst([outc(m) for m in obs["muts"]]))
 
     # ---- classification ---------------------------------------------------------
     def known(self, case, obs):
@@ -578,7 +584,7 @@ class C20(Property):
         if obs["pout"] != "ok":
             return obs["pout"] == "err" and obs["fout"] == "err"
         return obs["fout"] == "ok" and obs["idem"] and c20_norm(obs["ast"]) == obs["fast"] \
-            and obs.get("file", "same") == "same"
+            and obs.get("file", "same") == "same" and obs.get("conc", "same") == "same"
 
     def _variants(self, case, obs, kids):
         """Candidate explanations of a failing valid program: (ids, repaired source).
@@ -729,6 +735,10 @@ class C20(Property):
         bad = [o for o in obs["muts"] if o not in ("ok", "err", "skipped-empty")]
         if bad:
             return "format.Source crashed on an invalid source: %s" % bad[0]
+        if obs.get("conc", "same") != "same":
+            return "format.Source is not a function of its input when called concurrently: %s" % obs["conc"]
+        if obs.get("file", "same") != "same":
+            return "format.File: %s" % obs["file"]
         if obs["pout"] == "ok" and obs["fout"] != "ok":
             return "format.Source rejected a source the parser accepts: %s" % obs.get("ferr")
         if obs["pout"] == "ok" and c20_norm(obs["ast"]) != obs["fast"]:
